@@ -152,7 +152,9 @@ func (s *Store[H]) Stop(ctx context.Context) error {
 	// signal to prevent further writes to Store
 	select {
 	case s.writes <- nil:
-		s.cancel()
+		// cancel the flush loop's context only once it is done (or we stop waiting for it),
+		// so that it can drain the queued writes and advance/persist the head
+		defer s.cancel()
 	case <-ctx.Done():
 		return ctx.Err()
 	}
